@@ -3,15 +3,158 @@
 mod __verif {
     use super::*;
 
-    // @obligation name=a1_utf8_first_byte props=C01,C04,C06 fn=util::utf8_first_byte kind=complete domain="every char" tier=quick
+    fn enc(c: char) -> ([u8; 4], usize) {
+        let mut buf = [0u8; 4];
+        let n = c.encode_utf8(&mut buf).len();
+        (buf, n)
+    }
+
+    // @obligation name=a1_utf8_first_byte props=C01:t,C04,C06:t fn=util::utf8_first_byte kind=complete domain="every char" min_checks=100
     // utf8_first_byte(c) is the lead byte of the UTF-8 encoding of c, for every Unicode scalar value.
     #[kani::proof]
     fn a1_utf8_first_byte() {
         let c: char = kani::any();
-        let mut buf = [0u8; 4];
-        let enc = c.encode_utf8(&mut buf);
-        let lead = enc.as_bytes()[0];
-        assert!(utf8_first_byte(c as u32) == lead);
+        let (buf, _) = enc(c);
+        assert!(utf8_first_byte(c as u32) == buf[0]);
         kani::cover!(c as u32 >= 0x10000, "4-byte char reached");
+    }
+
+    // @obligation name=a1_utf8_first_byte_monotone props=C04 fn=util::utf8_first_byte kind=complete domain="every pair of code points (surrogates included)" min_checks=3
+    // utf8_first_byte is monotone in the code point (this is what lets add_utf8_first_bytes_to_bitmap fill a lead-byte range).
+    #[kani::proof]
+    fn a1_utf8_first_byte_monotone() {
+        let a: u32 = kani::any();
+        let b: u32 = kani::any();
+        kani::assume(a <= b && b <= CODE_POINT_MAX);
+        assert!(utf8_first_byte(a) <= utf8_first_byte(b));
+        kani::cover!(a < 0x80 && b >= 0x10000);
+    }
+
+    // @obligation name=a2_utf8_decode_words props=C01,C06 fn=util::utf8_w2,util::utf8_w3,util::utf8_w4 kind=complete domain="every char" min_checks=100
+    // utf8_w{2,3,4} applied to the std encoding of c return c; their debug_assert preconditions hold on well-formed UTF-8.
+    #[kani::proof]
+    fn a2_utf8_decode_words() {
+        let c: char = kani::any();
+        let (b, n) = enc(c);
+        match n {
+            1 => assert!(b[0] as u32 == c as u32),
+            2 => assert!(utf8_w2(b[0], b[1]) == c as u32),
+            3 => assert!(utf8_w3(b[0], b[1], b[2]) == c as u32),
+            _ => assert!(utf8_w4(b[0], b[1], b[2], b[3]) == c as u32),
+        }
+        kani::cover!(n == 2);
+        kani::cover!(n == 3);
+        kani::cover!(n == 4);
+    }
+
+    // @obligation name=a2_is_utf8_continuation props=C01:t,C06 fn=util::is_utf8_continuation kind=complete domain="every byte position of every char" min_checks=50
+    // is_utf8_continuation is true exactly on the non-lead bytes of a well-formed encoding.
+    #[kani::proof]
+    fn a2_is_utf8_continuation() {
+        let c: char = kani::any();
+        let (b, n) = enc(c);
+        let i: usize = kani::any();
+        kani::assume(i < n);
+        assert!(is_utf8_continuation(b[i]) == (i > 0));
+        kani::cover!(i == 3);
+    }
+
+    // Ghost model of ByteBitmap::set used to verify the caller modularly: it records whether TARGET was set.
+    // (set's own contract - adds exactly the byte, keeps all others - is obligation b1_bitmap_set_contains.)
+    static mut TARGET: u8 = 0;
+    static mut HIT: bool = false;
+    static mut OUTSIDE: bool = false;
+    static mut LO: u8 = 0;
+    static mut HI: u8 = 0;
+    fn ghost_set(_bm: &mut ByteBitmap, val: u8) {
+        unsafe {
+            if val == TARGET {
+                HIT = true;
+            }
+            if val < LO || val > HI {
+                OUTSIDE = true;
+            }
+        }
+    }
+
+    // @obligation name=b5_add_utf8_first_bytes props=C04 fn=util::add_utf8_first_bytes_to_bitmap kind=complete domain="every interval first<=last<=0x10FFFF, every cp in it" min_checks=50 timeout=1200
+    // add_utf8_first_bytes_to_bitmap(iv, bm) calls bm.set(lead byte of cp) for every code point cp of iv, and only ever
+    // sets bytes between the lead bytes of first and last; it never clears (it only calls set). Verified against the contract of set.
+    #[kani::proof]
+    #[kani::unwind(130)]
+    #[kani::stub(ByteBitmap::set, ghost_set)]
+    fn b5_add_utf8_first_bytes() {
+        let first: u32 = kani::any();
+        let last: u32 = kani::any();
+        kani::assume(first <= last && last <= CODE_POINT_MAX);
+        let cp: u32 = kani::any();
+        kani::assume(first <= cp && cp <= last);
+        unsafe {
+            TARGET = utf8_first_byte(cp);
+            LO = utf8_first_byte(first);
+            HI = utf8_first_byte(last);
+        }
+        let mut bm = ByteBitmap::default();
+        add_utf8_first_bytes_to_bitmap(Interval { first, last }, &mut bm);
+        unsafe {
+            assert!(HIT);
+            assert!(!OUTSIDE);
+        }
+        kani::cover!(first < 0x80 && last >= 0x10000);
+    }
+
+    // @obligation name=a8_iat_mat props=C06,C15 fn=util::DebugCheckIndex::iat,util::DebugCheckIndex::mat kind=complete domain="Vec/slice of 3 symbolic elements, every in-range index" features=default;prohibit-unsafe min_checks=50
+    // iat/mat return the element at idx (both cfg twins: get_unchecked and checked index) whenever idx < len.
+    #[kani::proof]
+    fn a8_iat_mat() {
+        let a: [u32; 3] = kani::any();
+        let mut v = a.to_vec();
+        let i: usize = kani::any();
+        kani::assume(i < 3);
+        assert!(*v.iat(i) == a[i]);
+        assert!(*a[..].iat(i) == a[i]);
+        let x: u32 = kani::any();
+        *v.mat(i) = x;
+        assert!(v[i] == x);
+        let j: usize = kani::any();
+        kani::assume(j < 3 && j != i);
+        assert!(v[j] == a[j]);
+        kani::cover!(i == 2);
+    }
+
+    // @obligation name=ck_equal_range_by props=C12 fn=util::SliceHelp::equal_range_by kind=bounded bound="sorted slices of length 0..=4 with symbolic u8 contents" min_checks=50
+    // equal_range_by on a sorted slice returns exactly the index range of the elements equal to the needle.
+    #[kani::proof]
+    #[kani::unwind(6)]
+    fn ck_equal_range_by() {
+        let a: [u8; 4] = kani::any();
+        let n: usize = kani::any();
+        kani::assume(n <= 4);
+        let s = &a[..n];
+        let mut i = 1;
+        while i < n {
+            kani::assume(s[i - 1] <= s[i]);
+            i += 1;
+        }
+        let needle: u8 = kani::any();
+        let r = s.equal_range_by(|v| v.cmp(&needle));
+        assert!(r.start <= r.end && r.end <= n);
+        let k: usize = kani::any();
+        kani::assume(k < n);
+        assert!((r.start <= k && k < r.end) == (s[k] == needle));
+        kani::cover!(r.end - r.start == 2);
+    }
+
+    // @obligation name=l_to_char_sat props=C07 fn=util::to_char_sat kind=complete domain="every u32" min_checks=10
+    // to_char_sat is total: the char itself for scalar values, char::MAX otherwise.
+    #[kani::proof]
+    fn l_to_char_sat() {
+        let c: u32 = kani::any();
+        let r = to_char_sat(c);
+        match char::from_u32(c) {
+            Some(x) => assert!(r == x),
+            None => assert!(r == char::MAX),
+        }
+        kani::cover!(c > 0x10FFFF);
     }
 }
